@@ -33,6 +33,7 @@ RULE = ("Hypothesis draws a type program (incl. std converted types and serializ
 ASSUMPTIONS = ["pure differential: no model; the baseline is the call with the library defaults",
                "values are well-typed (check_type=True must not change the result for them)"]
 BUDGET = {"quick": 500, "thorough": 6000}
+FUZZ = {"quick": 0, "thorough": 2000}
 SHARDS = {"quick": 8, "thorough": 16}
 MIN_NONTRIVIAL = {"quick": 500, "thorough": 8000}
 TECHNIQUE = "property-based testing (Hypothesis): differential between optimisation-option variants of apischema itself + container-identity walk"
